@@ -27,11 +27,24 @@
   OF THIS SOFTWARE, EVEN IF ADVISED OF THE POSSIBILITY OF SUCH DAMAGE.
 **********************************************************************/
 
+#include <string.h>
 #include <aes_gcm.h>
 #include <aes_keyexp.h>
 #include "aes_keyexp_internal.h"
 #include "aes_gcm.h"
 #include "aes_gcm_internal.h"
+
+#ifdef SAFE_DATA
+static inline void
+clear_tmp_keys(void *mem, const size_t size)
+{
+        memset(mem, 0, size);
+#if defined(__GNUC__) || defined(__clang__)
+        /* keep the compiler from dropping the store to a dying object */
+        __asm__ __volatile__("" : : "r"(mem) : "memory");
+#endif
+}
+#endif /* SAFE_DATA */
 
 void
 _aes_gcm_pre_128(const void *key, struct isal_gcm_key_data *key_data)
@@ -39,6 +52,10 @@ _aes_gcm_pre_128(const void *key, struct isal_gcm_key_data *key_data)
         uint8_t tmp_exp_key[ISAL_GCM_ENC_KEY_LEN * ISAL_GCM_KEY_SETS];
         _aes_keyexp_128((const uint8_t *) key, (uint8_t *) key_data->expanded_keys, tmp_exp_key);
         _aes_gcm_precomp_128(key_data);
+#ifdef SAFE_DATA
+        /* GCM never uses the decryption key schedule: do not leave it (and the raw key it ends with) on the stack */
+        clear_tmp_keys(tmp_exp_key, sizeof(tmp_exp_key));
+#endif
 }
 
 void
@@ -47,6 +64,10 @@ _aes_gcm_pre_256(const void *key, struct isal_gcm_key_data *key_data)
         uint8_t tmp_exp_key[ISAL_GCM_ENC_KEY_LEN * ISAL_GCM_KEY_SETS];
         _aes_keyexp_256((const uint8_t *) key, (uint8_t *) key_data->expanded_keys, tmp_exp_key);
         _aes_gcm_precomp_256(key_data);
+#ifdef SAFE_DATA
+        /* GCM never uses the decryption key schedule: do not leave it (and the raw key it ends with) on the stack */
+        clear_tmp_keys(tmp_exp_key, sizeof(tmp_exp_key));
+#endif
 }
 
 void
